@@ -337,6 +337,12 @@ pub fn knobs(profile: &str, thorough: bool, rng: &mut Rng) -> Knobs {
             }
             kn.walk_len = rng.below(14);
             kn.drain = true;
+            // make_mut runs the value's Clone impl, which may panic too
+            if rng.chance(1, 3) {
+                set_w(&mut kn, K::MakeMut, 5);
+                set_w(&mut kn, K::SlotMakeMut, 3);
+                kn.walk_len += 6;
+            }
         }
         "C12" => {
             recording_discipline(rng, &mut kn);
